@@ -231,23 +231,31 @@ def append_data_args(x):
 def reeval(chk, prog, other, pred, as_rule, floor_name=None, floor=0, _cache={}):
     """Re-evaluate rule instances decided under another property's module as instances of `as_rule` of this check.
     A property that depends on machinery another property "owns" must evaluate the shared rules itself (round-2 lesson d).
-    pred(instance) selects; the instance key keeps the owning rule so that a finding is identified the same way everywhere."""
+    pred(instance) selects; the instance key keeps the owning rule so that a finding is identified the same way everywhere.
+    A sub-result computed inside a dependency cycle lacks only the instances it would itself have re-evaluated from the module further up the
+    chain (which evaluates them directly); consumers select by the rules a module owns, so nothing is lost through the cache."""
     import importlib
     ck = (id(prog), other, chk.tier)
     active = _cache.setdefault("__active__", [])
+    pushed_root = False
     if not active:
-        active.append(chk.pid)
-    if other in active:
-        return []                   # mutual dependence (C03 <-> C04): the rules of `other` are being evaluated further up this chain
-    if ck not in _cache:
-        mod = importlib.import_module("sa.rules." + other)
-        sub = type(chk)(other, chk.tier)
-        active.append(other)
-        try:
-            mod.run(sub, prog)
-        finally:
+        active.append(chk.pid)      # the check this chain of re-evaluations started from; removed again when this call returns
+        pushed_root = True
+    try:
+        if other in active:
+            return []               # mutual dependence (C03 <-> C04): the rules of `other` are being evaluated further up this chain
+        if ck not in _cache:
+            mod = importlib.import_module("sa.rules." + other)
+            sub = type(chk)(other, chk.tier)
+            active.append(other)
+            try:
+                mod.run(sub, prog)
+            finally:
+                active.pop()
+            _cache[ck] = sub
+    finally:
+        if pushed_root:
             active.pop()
-        _cache[ck] = sub
     sub = _cache[ck]
     r = [i for i in sub.instances if pred(i)]
     for i in r:
